@@ -1158,6 +1158,13 @@ func propC08(re *rootEnv) func(*rapid.T) {
 			must(err)
 			h.add("Plan", tfString(planV))
 			h.kinds[len(h.kinds)-1] = "Plan:" + statePattern(planV)
+			// the same plan written the way a literal is (`types.List{ElemType: t}`): known, empty
+			// collections carry a nil container
+			if coin(t, 1, 4, fmt.Sprintf("literal%d", i)) {
+				plan = nilEmptyContainers(plan).(types.Object)
+				h.add("PlanLiteral", "known empty collections have nil Elems")
+				st.probe("plan-with-nil-containers-for-empty-collections")
+			}
 			S := re.fn.New()
 			re.copyFrom(t, "C08", plan, S, h)
 			h.add("Echo", "")
@@ -1236,4 +1243,50 @@ func c07NaNWrite(t *rapid.T, re *rootEnv, h *history, label string) bool {
 	}
 	st.probe("nan-payload-in-active-branch")
 	return true
+}
+
+// nilEmptyContainers returns v with the Elems of every known, non-null, empty list or map set to nil
+// (the same value, written as a literal).
+func nilEmptyContainers(v attr.Value) attr.Value {
+	switch x := v.(type) {
+	case types.Object:
+		if x.Null || x.Unknown || x.Attrs == nil {
+			return x
+		}
+		c := x
+		c.Attrs = make(map[string]attr.Value, len(x.Attrs))
+		for k, a := range x.Attrs {
+			c.Attrs[k] = nilEmptyContainers(a)
+		}
+		return c
+	case types.List:
+		if x.Null || x.Unknown {
+			return x
+		}
+		c := x
+		if len(x.Elems) == 0 {
+			c.Elems = nil
+			return c
+		}
+		c.Elems = make([]attr.Value, len(x.Elems))
+		for i, a := range x.Elems {
+			c.Elems[i] = nilEmptyContainers(a)
+		}
+		return c
+	case types.Map:
+		if x.Null || x.Unknown {
+			return x
+		}
+		c := x
+		if len(x.Elems) == 0 {
+			c.Elems = nil
+			return c
+		}
+		c.Elems = make(map[string]attr.Value, len(x.Elems))
+		for k, a := range x.Elems {
+			c.Elems[k] = nilEmptyContainers(a)
+		}
+		return c
+	}
+	return v
 }
